@@ -16,9 +16,36 @@ import (
 func loopBoundRule(r *Report, p *Prog, rule string, fn *ssa.Function, constName string) {
 	key := fnKey(fn) + ": loop bounded by " + constName
 	val, ok := lookupConstInFn(p, fn, constName)
+	var boundParam *ssa.Parameter
 	if !ok {
-		r.bad(rule, key, p.pos(fn.Pos()), "constant "+constName+" no longer declared in or for this function")
-		return
+		// the bound may be a parameter that every caller sets to a constant
+		for _, prm := range fn.Params {
+			if prm.Name() == constName {
+				boundParam = prm
+			}
+		}
+		if boundParam == nil {
+			r.bad(rule, key, p.pos(fn.Pos()), "constant "+constName+" no longer declared in or for this function")
+			return
+		}
+		for _, caller := range p.Funcs {
+			for _, b := range caller.Blocks {
+				for _, in := range b.Instrs {
+					if c, ok := in.(ssa.CallInstruction); ok && c.Common().StaticCallee() == fn {
+						idx := -1
+						for i, prm := range fn.Params {
+							if prm == boundParam {
+								idx = i
+							}
+						}
+						if _, isConst := c.Common().Args[idx].(*ssa.Const); !isConst {
+							r.bad(rule, key, p.pos(in.Pos()), "the bound "+constName+" is a parameter and this caller does not pass a constant")
+							return
+						}
+					}
+				}
+			}
+		}
 	}
 	for _, l := range naturalLoops(fn) {
 		// find an If in the loop whose condition involves `phi < const`
@@ -35,7 +62,8 @@ func loopBoundRule(r *Report, p *Prog, rule string, fn *ssa.Function, constName 
 				}
 				if bo, ok := v.(*ssa.BinOp); ok {
 					if bo.Op == token.LSS || bo.Op == token.LEQ {
-						if c, ok := bo.Y.(*ssa.Const); ok && c.Value != nil && constant.Compare(c.Value, token.EQL, val) {
+						c, isC := bo.Y.(*ssa.Const)
+						if (boundParam != nil && bo.Y == ssa.Value(boundParam)) || (boundParam == nil && isC && c.Value != nil && constant.Compare(c.Value, token.EQL, val)) {
 							if phi, ok := bo.X.(*ssa.Phi); ok && phi.Block() == l.header && counterPhi(phi, l) {
 								found = true
 								return
